@@ -529,7 +529,8 @@ fn accepts_ref(a: &Automaton, w: &[u32]) -> Result<bool, String> {
 }
 
 /// number of Myhill-Nerode classes among the states reachable from the initial state
-fn nerode_classes(a: &Automaton) -> usize {
+/// number of Myhill-Nerode classes among the reachable states (all == false) or among all states (all == true: minimize keeps unreachable states)
+fn nerode_classes(a: &Automaton, all: bool) -> usize {
     let alpha = a.pick_alphabet();
     // reachable states
     let n = a.num_states();
@@ -545,7 +546,7 @@ fn nerode_classes(a: &Automaton) -> usize {
             }
         }
     }
-    let states: Vec<usize> = (0..n).filter(|&q| reach[q]).collect();
+    let states: Vec<usize> = (0..n).filter(|&q| all || reach[q]).collect();
     let mut class: Vec<usize> = vec![0; n];
     for &q in &states {
         class[q] = if a.state(q).is_final() { 1 } else { 0 };
@@ -580,15 +581,18 @@ fn nerode_classes(a: &Automaton) -> usize {
 /// a random complete automaton over states 0..n (some unreachable), transitions on 'a','b','c' and a default
 fn random_builder_automaton(ctx: &mut Ctx) -> (Automaton, String) {
     let n = 2 + ctx.below(5) as u32;
+    // every other automaton has `lo` states without incoming transitions (targets are drawn from lo..n): the initial
+    // state plus unreachable states that the minimizer still has to tell apart
+    let lo = if ctx.below(2) == 0 { 0 } else { 1 + ctx.below(std::cmp::min(3, n as u64 - 1)) as u32 };
     let mut b = AutomatonBuilder::new(&0u32);
     let mut desc = format!("builder automaton with {} states:", n);
     for q in 0..n {
-        let d = ctx.below(n as u64) as u32;
+        let d = lo + ctx.below((n - lo) as u64) as u32;
         b.set_default_successor(&q, &d);
         desc.push_str(&format!(" [{}: default->{}", q, d));
         for (k, c) in [A, A + 1, A + 2].iter().enumerate() {
             if ctx.below(3) != 0 {
-                let t = ctx.below(n as u64) as u32;
+                let t = lo + ctx.below((n - lo) as u64) as u32;
                 if t != d || k == 0 {
                     b.add_transition(&q, &CharSet::singleton(*c), &t);
                     desc.push_str(&format!(" {}->{}", c, t));
@@ -611,6 +615,7 @@ pub fn builder_automata_checks(ctx: &mut Ctx, which: &str) -> Option<Failure> {
             break;
         }
         let (mut a, desc) = random_builder_automaton(ctx);
+        let ctx_flip = ctx.below(2) == 0;
         let r = ctx.case(|| {
             watch(desc.clone());
             let before: Vec<bool> = ws.iter().map(|w| a.accepts(&sm(w))).collect();
@@ -666,9 +671,11 @@ pub fn builder_automata_checks(ctx: &mut Ctx, which: &str) -> Option<Failure> {
                     return fail("Automaton::remove_unreachable_states(num_states)", desc.clone(), format!("{} reachable states", nreach), format!("{}", a.num_states()));
                 }
             } else {
-                // C04: minimize
-                let _ = guarded(|| a.remove_unreachable_states());
-                let classes = nerode_classes(&a);
+                // C04: minimize, on the automaton as built (unreachable states included) or after pruning
+                if ctx_flip {
+                    let _ = guarded(|| a.remove_unreachable_states());
+                }
+                let classes = nerode_classes(&a, !ctx_flip);
                 if let Err(p) = guarded(|| a.minimize()) {
                     return fail("Automaton::minimize", desc.clone(), "no panic".into(), p);
                 }
@@ -841,7 +848,7 @@ pub fn automata_checks(ctx: &mut Ctx, which: &str) -> Option<Failure> {
                 }
             }
             if which == "C04" {
-                let classes = nerode_classes(&a);
+                let classes = nerode_classes(&a, false);
                 let before: Vec<bool> = ws.iter().map(|w| a.accepts(&sm(w))).collect();
                 if let Err(p) = guarded(|| a.minimize()) {
                     return fail("Automaton::minimize", show(&ast), "no panic".into(), p);
